@@ -1,5 +1,6 @@
 """C10: R3 oracle of get_perm_c (dispatch per ColPerm, index-base pairing around genmmd_), structural rules on get_colamd."""
 from ..facts import strip, callee_name, loc, canon
+from ..ir import pretty
 from . import r3_dispatch as r3, r7_perm
 from ..props._drv import Flags, Expect, ppos, set_through
 
@@ -119,3 +120,45 @@ def colamd_rules(chk, cid, prog, cfgname):
                     'COLAMD destroys its input: the n+1 column pointers and the nnz row indices must be copied into private arrays first (found %s, expected %s)'
                     % (copies, want), cfgname=cfgname)
     return 2
+
+
+def downward_slot_rule(chk, cid, prog, cfgname):
+    """COLAMD parks the columns it does not order (empty, dense, newly empty) at the end of the permutation: `n_col2` starts at n_col, one past
+    the last slot, and every parked column receives the *decremented* value (`Col[c].shared2.order = --n_col2`), so that the slots
+    n_col2..n_col-1 are each given out once and n_col2 ends as the number of columns left to order.  A post-decrement hands out slot n_col
+    (outside the permutation) and gives one slot to two columns: perm_c is no longer a bijection - but only for matrices that have such a
+    column, which small test matrices do not.  Every store of an order slot derived from the downward cursor must pre-decrement it."""
+    from ..run import AnalysisBroken
+    chk.clause(cid, 'COLAMD: order slots handed out from the top use the pre-decremented cursor')
+    f = next((g for g in prog.all_funcs() if g.name == 'init_scoring' and g.unit.endswith('colamd.c')), None)
+    if f is None:
+        raise AnalysisBroken('init_scoring (colamd.c) not found')
+    chk.saw(unit=f.unit, func=f.unit + ':' + f.name)
+    # the downward cursor: a local initialised from the column count and decremented in the routine
+    cursors = {}
+    for x in f.body.walk():
+        if x.k == 'Unary' and x.a['op'] in ('--', 'post--') and strip(x.c[0]).k == 'Ref':
+            cursors[strip(x.c[0]).a.get('id')] = strip(x.c[0]).a.get('name')
+    n = 0
+    for x in f.body.walk():
+        if x.k != 'Assign' or x.a['op'] != '=':
+            continue
+        lv = strip(x.c[0])
+        if not (lv.k == 'Member' and lv.a.get('name') == 'order'):
+            continue
+        uses = [y for y in x.c[1].walk() if y.k == 'Ref' and y.a.get('id') in cursors]
+        if not uses:
+            continue
+        n += 1
+        r = strip(x.c[1])
+        inst = 'init_scoring:order-slot-from-the-top@%d' % n
+        if r.k == 'Unary' and r.a['op'] == '--' and not r.a.get('postfix'):
+            chk.ok(cid, inst, sample=pretty(x)[:60])
+        else:
+            chk.violate(cid, inst, loc(f, x), f.name,
+                        '`%s` stores the cursor %s without pre-decrementing it: the cursor starts one past the last slot, so this column gets a slot that '
+                        'is outside the permutation or already taken, and perm_c is not a bijection for a matrix that has such a column'
+                        % (pretty(x)[:60], cursors[uses[0].a.get('id')]), cfgname=cfgname)
+    if n < 3:
+        raise AnalysisBroken('%s: %d order-slot stores found in init_scoring, expected 3' % (cid, n))
+    return n
